@@ -25,7 +25,7 @@ ASSUMPTIONS = [
     "the four published recipient keys were transcribed once into vlib/bf3model.py (all four verified to be on P-256); a change of the repository constants is reported",
     "any exception counts as refusal of an invalid ephemeral point (types are judged in C14)",
 ]
-REQUIRED_CLASSES = ["sel=0", "sel=1", "sel=2", "sel=3", "edge-scalar", "default.no-encryptor", "default.encryptor(sel)", "default.write_file",
+REQUIRED_CLASSES = ["repack.recipient-changes", "repack.via=block", "repack.via=file", "sel=0", "sel=1", "sel=2", "sel=3", "edge-scalar", "default.no-encryptor", "default.encryptor(sel)", "default.write_file",
                     "shared-x.leading-zero", "reject.off-curve", "reject.coord>=p", "reject.constructed-y+p", "reject.constructed-x+p", "reject.zero", "reject.other-curve", "key.ends00"]
 
 B2 = sut.B2
@@ -115,6 +115,53 @@ def check_default(case, rec):
         others = [s for s in range(4) if s != sel and M.ecies_open_with_ephemeral(rk.scalars[0], M.published_point(s), block[1:]) == key]
         raise Violation("selector-%d block written without explicit recipient (%s) is not addressed to BALTECH's published key %d%s" % (
             sel, how, sel, (": it opens under published key %d" % others[0]) if others else ""))
+
+
+def check_repack(case, rec):
+    """The SAME auth-block / file object written several times, each time for another recipient situation (published key, explicit
+    recipient A, explicit recipient B): every written block must be addressed to the recipient of THAT write."""
+    sel, key, seq = case["sel"], case["key"], case["seq"]
+    rec.cls("sel=%d" % sel)
+    rec.cls("repack.via=" + case["via"])
+    if len(set(seq)) >= 2:
+        rec.cls("repack.recipient-changes")
+        rec.nt()
+    privs = {"A": case["pa"], "B": case["pb"]}
+    blk = B2.InitEccAuthBlock(sel)
+    bec = sut.Bec2File(sut.Bf3File({}, [sut.Bf3Component({0xC3: b"\x02"}, b"abc")]), [blk], key)
+    for step, who in enumerate(seq):
+        writers = [] if who == "default" else [B2.EccEncryptor(sel, B2.EccDecryptor(sel, sut.private_key_from_int(privs[who])).public_key)]
+        if case.get("decoy"):
+            writers = [B2.ConfigSecurityCodeEncryptor(b"12345678")] + writers
+        with sut.DetKeys(case_hash(case) + bytes([step])) as rk:
+            try:
+                if case["via"] == "block":
+                    block = blk.pack(key, writers)
+                else:
+                    hb, _ = M.parse_bec2_header(bec.to_binary(writers))
+                    block = hb[0][1]
+            except M.Reject as r:
+                raise Violation("write %d: header: %s" % (step + 1, r))
+            except Exception as e:
+                raise Violation("write %d (recipient %s) of the same object raised %s: %s" % (step + 1, who, type(e).__name__, e))
+        _shape(block, sel)
+        try:
+            if who == "default":
+                got = M.ecies_open_with_ephemeral(rk.scalars[0], M.published_point(sel), block[1:]) if len(rk.scalars) == 1 else None
+            else:
+                got = M.ecies_open(privs[who], block[1:])
+        except M.Reject as r:
+            got = None
+        if got != key:
+            raise Violation("write %d of the same %s object, recipient situation %r after %r: the block is not addressed to this write's recipient (%s)" % (
+                step + 1, "InitEccAuthBlock" if case["via"] == "block" else "Bec2File", who, seq[:step],
+                "BALTECH's published key %d" % sel if who == "default" else "explicit recipient " + who))
+
+
+def strat_repack(tier):
+    return st.fixed_dictionaries(dict(sel=st.integers(0, 3), key=st.binary(min_size=16, max_size=16), pa=S.ecc_priv(), pb=S.ecc_priv(),
+                                      seq=st.lists(st.sampled_from(["default", "A", "B"]), min_size=2, max_size=4), via=st.sampled_from(["block", "file"]),
+                                      decoy=st.booleans())).filter(lambda c: c["pa"] != c["pb"])
 
 
 def check_pinned(case, rec):
@@ -368,6 +415,7 @@ def parts(tier):
         Part("leading_zero", check=check_leading_zero, enum=enum_leading_zero, quick=(4, 0), thorough=(8, 0)),
         Part("explicit", check=check_explicit, strategy=strat_explicit, quick=(16, 150), thorough=(16, 2500)),
         Part("default", check=check_default, strategy=strat_default, quick=(16, 100), thorough=(16, 1500)),
+        Part("repack", check=check_repack, strategy=strat_repack, quick=(8, 40), thorough=(16, 400)),
         Part("interop", check=check_interop, strategy=strat_interop, quick=(16, 60), thorough=(16, 1000)),
         Part("rawder", check=check_rawder, strategy=strat_rawder, quick=(4, 40), thorough=(16, 300)),
         Part("reject_constructed", check=check_small_y, enum=enum_small_y, quick=(2, 0), thorough=(4, 0)),
